@@ -94,12 +94,25 @@ class Staging:
             if d.startswith("itertools.") or (isinstance(e.func, ast.Name) and nm in
                                               ("takewhile", "dropwhile", "chain", "cycle", "islice", "count", "tee")
                                               and scope.module.imports.get(nm, ("", ""))[0] == "itertools"):
-                return "ONESHOT", f"{d}(...)"
+                inf = d.split(".")[-1] in ("count", "cycle") or (d.split(".")[-1] == "repeat" and len(e.args) + len(e.keywords) == 1)
+                return ("ONESHOT-INF" if inf else "ONESHOT"), f"{d}(...)"
             tgt = self.repo.resolve_expr(scope, e.func)
             if tgt is not None and tgt.is_func:
                 g, unb = self.generator_info(tgt)
                 if g:
                     return ("ONESHOT-INF" if unb else "ONESHOT"), f"generator {tgt.name}()"
+                # a plain helper that returns a one-shot iterator (def infinite(): return itertools.count())
+                if not hasattr(self, "_ret_depth"):
+                    self._ret_depth = 0
+                if self._ret_depth < 3:
+                    self._ret_depth += 1
+                    try:
+                        rk = [self.kind_of(tgt, n.value) for n in tgt.direct_nodes() if isinstance(n, ast.Return) and n.value is not None]
+                    finally:
+                        self._ret_depth -= 1
+                    if rk and all(k in ("ONESHOT", "ONESHOT-INF") for k, _ in rk):
+                        k0 = "ONESHOT" if any(k == "ONESHOT" for k, _ in rk) else "ONESHOT-INF"
+                        return k0, f"{tgt.name}() -> {rk[0][1]}"
             if nm in MUTABLE_CTORS:
                 return "MUTABLE", f"{nm}()"
             return "OTHER", f"{d}(...)"
